@@ -1038,15 +1038,33 @@ def elementwise(I, op, a, b, cmp=False):
             if swap:
                 return SArr(big.shape, lambda *i: f(small.fn(*i[off:]), big.fn(*i)), dt, "ndarray")
             return SArr(big.shape, lambda *i: f(big.fn(*i), small.fn(*i[off:])), dt, "ndarray")
+        stretch_a, stretch_b = [], []
         for x, y in zip(a.shape, b.shape):
-            if x is y:
-                continue
-            if not ctx.entails(Eq(x, y)):
+            one_a = (not is_sym(x)) and x == 1
+            one_b = (not is_sym(y)) and y == 1
+            if x is y or (one_a and one_b):
+                stretch_a.append(False)
+                stretch_b.append(False)
+            elif one_b and a.ndim > 1:
+                stretch_a.append(False)
+                stretch_b.append(True)        # numpy broadcasting: a dimension of size 1 is repeated
+            elif one_a and a.ndim > 1:
+                stretch_a.append(True)
+                stretch_b.append(False)
+            elif ctx.entails(Eq(x, y)):
+                stretch_a.append(False)
+                stretch_b.append(False)
+            else:
                 raise Undecided("broadcasting of arrays whose shapes are not provably equal")
         dt = "bool" if cmp else result_dtype(op, a.dtype, b.dtype)
         kind = a.kind if a.kind in INDEX_KINDS else (b.kind if b.kind in INDEX_KINDS else "ndarray")
         if cmp:
             kind = "ndarray"
+        if any(stretch_a) or any(stretch_b):
+            shape = tuple(y if sa else x for x, y, sa in zip(a.shape, b.shape, stretch_a))
+            ia = lambda i: tuple(0 if sa else v for v, sa in zip(i, stretch_a))
+            ib = lambda i: tuple(0 if sb else v for v, sb in zip(i, stretch_b))
+            return SArr(shape, lambda *i: f(a.fn(*ia(i)), b.fn(*ib(i))), dt, "ndarray")
         return SArr(a.shape, lambda *i: f(a.fn(*i), b.fn(*i)), dt, kind)
     if isinstance(a, SArr):
         dt = "bool" if cmp else result_dtype(op, a.dtype, "real" if is_reallike(b) else "int")
